@@ -474,7 +474,9 @@ class DeepCopyMethod(MethodDescriptor):
 
     @staticmethod
     def deepcopy(self, memo):
-        if self.__spec_class__.frozen or self.__spec_class__.do_not_copy:
+        # Note: frozen instances are copied too. Copy-on-write helpers write
+        # their change onto this copy, and nested values may still be mutable.
+        if self.__spec_class__.do_not_copy:
             return self
         new = self.__class__.__new__(self.__class__)
         for attr, value in self.__dict__.items():
